@@ -221,6 +221,10 @@ OpStep2(e) ==
   IF match = {}
   THEN /\ Fail(IF e.res.k = "panic" THEN "PANIC" ELSE "C01", "result", e)
        /\ PrintT(<<"EXPECTED", {o.res : o \in outs}, "GOT", e.res>>)
+       \* C10 speaks about every call that IS refused, also one the model would not have refused: a refusal that
+       \* arrives after part of the work was done (the image changed) is a C10 violation in its own right
+       /\ (IF IsRefusal(e) /\ Has(e, "imghash") /\ PrevHash(e) # "?" /\ e.imghash # PrevHash(e)
+           THEN Fail("C10", "bytes-unchanged", e) ELSE TRUE)
        /\ skip' = TRUE /\ UNCHANGED <<st, cyc>>
   ELSE IF ~e.heavy
   THEN IF Cardinality({o.st : o \in match}) > 1
